@@ -18,6 +18,7 @@ import (
 	"bytes"
 	"fmt"
 	"io"
+	"math/rand"
 	"os"
 	"os/exec"
 	"path/filepath"
@@ -488,7 +489,7 @@ func c20ProgressLines(writes []string) []string {
 type c20E2EStep struct {
 	upload      bool
 	resizeIdle  int  // > 0: resize while no transfer runs, before this one
-	resizeAt    int  // > 0: resize while this transfer runs, when the data direction has carried this many writes
+	resizeAt    int  // > 0: resize while this transfer runs, when the data direction has carried this many times 10000 bytes
 	resizeTo    int  // the width of that resize
 	prompt      bool // Ctrl-C, then (after the resize, if any) "continue", while the link is held
 	resizeFirst bool // the resize comes before the prompt opens instead of while it is open
@@ -592,9 +593,9 @@ func c20RunE2ESession(dir string, sc c20E2EScenario) (enc []string, got []string
 	var hookMu sync.Mutex
 	var hook func(dir int, idx int)
 	counts := [2]int{}
-	callHook := func(d int) {
+	callHook := func(d int, nbytes int) {
 		hookMu.Lock()
-		counts[d]++
+		counts[d] += nbytes
 		h, i := hook, counts[d]
 		hookMu.Unlock()
 		if h != nil {
@@ -602,7 +603,7 @@ func c20RunE2ESession(dir string, sc c20E2EScenario) (enc []string, got []string
 		}
 	}
 	serverIn := c20WriterFunc(func(p []byte) (int, error) {
-		callHook(dirC2S)
+		callHook(dirC2S, len(p))
 		childMu.Lock()
 		w := childIn
 		childMu.Unlock()
@@ -635,7 +636,8 @@ func c20RunE2ESession(dir string, sc c20E2EScenario) (enc []string, got []string
 	}
 	for k, st := range sc.steps {
 		name := fmt.Sprintf("c20_file_%d_with_a_fairly_long_name.bin", k)
-		data := bytes.Repeat([]byte{byte('a' + k)}, 300*1024)
+		data := make([]byte, 300*1024) // incompressible: the traffic is then about 400 KB whatever the codec
+		rand.New(rand.NewSource(int64(7919*(k+1) + len(sc.name)))).Read(data)
 		from := src
 		if st.upload {
 			from = filepath.Join(dir, "up")
@@ -683,7 +685,9 @@ func c20RunE2ESession(dir string, sc c20E2EScenario) (enc []string, got []string
 		hook = nil
 		if st.resizeAt > 0 {
 			hook = func(d, idx int) {
-				if d != dataDir || idx < st.resizeAt+3 { // +3: past the handshake lines of that direction
+				// idx = bytes carried so far in this direction: the resize point is a byte count (a
+				// 300 KiB file makes about 400 KB of traffic), independent of how the writes are cut
+				if d != dataDir || idx < st.resizeAt*10000 {
 					return
 				}
 				once.Do(func() {
@@ -737,7 +741,7 @@ func c20RunE2ESession(dir string, sc c20E2EScenario) (enc []string, got []string
 			for {
 				n, err := stdout.Read(buf)
 				if n > 0 {
-					callHook(dirS2C)
+					callHook(dirS2C, n)
 					svrOutW.Write(append([]byte(nil), buf[:n]...))
 				}
 				if err != nil {
@@ -779,7 +783,7 @@ func c20RunE2ESession(dir string, sc c20E2EScenario) (enc []string, got []string
 			select {
 			case <-resized:
 			default:
-				return nil, nil, viol, fmt.Sprintf("%s: transfer %d was over before its resize point (write %d)", desc, k+1, st.resizeAt), nlines
+				return nil, nil, viol, fmt.Sprintf("%s: transfer %d was over before its resize point (%d bytes)", desc, k+1, st.resizeAt*10000), nlines
 			}
 		}
 		where := dst
